@@ -61,7 +61,7 @@ func points(k blk.Kind) []string {
 	}
 	if k.Family == "queue" {
 		p = append(p, "queue.before_push", "queue.after_push")
-		p = append(p, "release-after-a-rejection-at-the-full-backlog")
+		p = append(p, "release-after-a-rejection-at-the-full-backlog", "second-release-inside-the-strategy", "refused-handoff-with-a-cancelled-head")
 		if k.Evict {
 			p = append(p, "handoff-vs-cancel")
 		} else {
@@ -77,7 +77,7 @@ func grid() []scenario {
 		for _, p := range points(k) {
 			for cap := 1; cap <= 2; cap++ {
 				for nw := 1; nw <= 3; nw++ {
-					if ((p == "loser-retry" || p == "parallel-releases" || p == "second-release-at-refused-handoff") && (cap < 2 || nw < 2)) || ((strings.HasPrefix(p, "handoff") || strings.HasPrefix(p, "next-in-line") || p == "winner-cancelled-at-wakeup") && nw < 2) {
+					if ((p == "loser-retry" || p == "parallel-releases" || p == "second-release-at-refused-handoff" || p == "second-release-inside-the-strategy") && (cap < 2 || nw < 2)) || (p == "refused-handoff-with-a-cancelled-head" && (nw < 2 || k.Evict)) || ((strings.HasPrefix(p, "handoff") || strings.HasPrefix(p, "next-in-line") || p == "winner-cancelled-at-wakeup") && nw < 2) {
 						continue
 					}
 					for _, o := range outcomes {
@@ -111,6 +111,9 @@ func run(t *testing.T, sc scenario, r *rand.Rand) outcomeT {
 	bubble(t, func(t *testing.T) {
 		k := sc.Kind
 		k.Precise = precise
+		if sc.Point == "second-release-inside-the-strategy" {
+			k.Precise = false
+		}
 		if sc.Point == "release-after-a-rejection-at-the-full-backlog" {
 			k.Backlog = sc.Waiters
 		}
@@ -202,6 +205,17 @@ func run(t *testing.T, sc scenario, r *rand.Rand) outcomeT {
 				}
 			}
 		}
+		if sc.Point == "second-release-inside-the-strategy" {
+			// the hand-off of a release is inside the (simple) strategy, between its check and its add, when the next holder
+			// completes in another goroutine
+			strategy.SetVerifHook(func(name string) {
+				if name == "simple.between_check_and_add" && armed.Load() && reached.CompareAndSwap(false, true) {
+					fin := w.Actor.Do(func() { releaseNext() }, sc.Yields)
+					w.Tracef("hand-off inside the strategy; second release finished within the pause: %v", fin)
+				}
+			})
+			defer strategy.SetVerifHook(nil)
+		}
 		if sc.Point == "slow-inner-release" {
 			// the delegate's listener takes its time before the unit is really back
 			w.Gate.BeforeInnerRelease = func(string) {
@@ -269,7 +283,7 @@ func run(t *testing.T, sc scenario, r *rand.Rand) outcomeT {
 		}
 		for i := 0; i < sc.Waiters; i++ {
 			w.Spawn()
-			if sc.Point == "asleep" || sc.Point == "loser-retry" || sc.Point == "parallel-releases" || sc.Point == "second-release-at-refused-handoff" || sc.Point == "slow-inner-release" || sc.Point == "winner-cancelled-at-wakeup" || sc.Point == "release-after-a-rejection-at-the-full-backlog" || strings.HasPrefix(sc.Point, "handoff") || strings.HasPrefix(sc.Point, "next-in-line") {
+			if sc.Point == "asleep" || sc.Point == "loser-retry" || sc.Point == "parallel-releases" || sc.Point == "second-release-at-refused-handoff" || sc.Point == "slow-inner-release" || sc.Point == "winner-cancelled-at-wakeup" || sc.Point == "release-after-a-rejection-at-the-full-backlog" || sc.Point == "second-release-inside-the-strategy" || sc.Point == "refused-handoff-with-a-cancelled-head" || strings.HasPrefix(sc.Point, "handoff") || strings.HasPrefix(sc.Point, "next-in-line") {
 				w.Quiesce() // arrival order is a fact
 				if sc.Point == "handoff-vs-timeout" {
 					time.Sleep(time.Millisecond)
@@ -300,6 +314,30 @@ func run(t *testing.T, sc scenario, r *rand.Rand) outcomeT {
 			reached.Store(true)
 			releaseNext()
 			snap("after-release-following-a-rejection-at-the-full-backlog")
+		case "second-release-inside-the-strategy":
+			armed.Store(true)
+			releaseNext()
+			snap("after-two-releases-one-landing-inside-the-strategy")
+			armed.Store(false)
+		case "refused-handoff-with-a-cancelled-head":
+			// eviction off: the next-in-line caller is cancelled but stays queued; a release whose hand-off the delegate
+			// refuses (a newcomer took the unit first) must leave the backlog as it is; the next release serves somebody
+			nl := w.Waiters[0]
+			if sc.Kind.Ordering == "lifo" {
+				nl = w.Waiters[len(w.Waiters)-1]
+			}
+			w.CancelWaiter(nl)
+			w.Quiesce()
+			w.Gate.RefuseNext.Store(true)
+			reached.Store(true)
+			releaseNext() // the hand-off is refused: the unit lies free at the delegate, nobody was told (by design)
+			w.Quiesce()
+			w.Gate.RefuseNext.Store(false)
+			// the newcomer that was faster: takes the free unit on the fast path and completes it again
+			if nc, ok := w.Lim.Acquire(inject.WithCaller(context.Background(), 1500)); ok {
+				w.Release(nc, sc.Outcome)
+			}
+			snap("after-the-release-following-a-refused-hand-off")
 		case "slow-inner-release":
 			reached.Store(true)
 			releaseNext()
